@@ -13,6 +13,7 @@ extern "C" {
   void          sym_assume(bool);
   void          sym_assert(bool, const char *what);
   bool          sym_same(double, double);          // bit identity (NaN is NaN, +0 is not -0)
+  bool          sym_eq(double, double);            // symbolic run: exact equality of the mode; native: equal up to 1e-9 relative
   void          sym_reach(const char *what);       // reachability witness
   void          sym_out(const char *name, double v);          // observable output (compared native vs. engine)
   void          sym_out_u64(const char *name, unsigned long v);
